@@ -14,6 +14,8 @@ def run(repo: Repo, chk: Check):
     chk.rule("R13.c", "every access to the per-compile tables 'symbols' and 'structures' is keyed by the module-qualified scope name "
                       "(get_scope_name) or iterates the table itself", floor=8)
     chk.rule("R13.d", "module-level values of every module get the unbounded lifetime", floor=1)
+    chk.rule("R13.g", "every construction of a function's label uses the module-qualified name, so a library function's label, its "
+                      "references and the ra logic agree (shared with R05.d)", floor=6)
     chk.rule("R13.f", "every function scope stays clear of the registers of every library module's globals (shared with R04.f)", floor=1)
     chk.rule("R13.e", "an imported library module is renamed to its alias consistently (module name == key of the module table), and "
                       "scope / function names are qualified with that module name", floor=3)
@@ -134,6 +136,8 @@ def run(repo: Repo, chk: Check):
     # ------------------------------------------------------------ R13.d
     rule_module_lifetime(repo, chk, "R13.d")
 
+    from .shared import rule_function_labels
+    chk.guarded(rule_function_labels, repo, chk, "R13.g")
     from .c04 import rule_functions_below_modules
     chk.guarded(rule_functions_below_modules, repo, chk, "R13.f")
 
